@@ -371,8 +371,10 @@ class VersionConverter(object):
             return values[0]
 
         stream = io.StringIO()
-        csv.writer(stream, dialect="excel", lineterminator="").writerow(values)
-        return "[%s]" % stream.getvalue()
+        # The writer only quotes the line break characters that are part of its line
+        # terminator: keep the default terminator and remove it from the result.
+        csv.writer(stream, dialect="excel").writerow(values)
+        return "[%s]" % stream.getvalue().rstrip("\r\n")
 
     def _handle_value(self, value, log_id):
         """
